@@ -480,17 +480,299 @@ def desugar_for_each(raw, originals, stats=None, owner=None):
     return changed
 
 
+
+def splice_closure(raw, q, env_local, arg_ops, ret_target, ln=None):
+    """append the body of closure `q` to `raw`: returns (entry block, local holding the returned value, prologue statements
+    that bind the environment and the arguments).  `return` becomes `goto ret_target`."""
+    blocks = raw["blocks"]
+    L = raw["locals"]
+    lb = len(L)
+    pb = len(raw.get("promoted") or [])
+    L.extend(copy.deepcopy(q.raw["locals"]))
+    if q.raw.get("promoted"):
+        raw.setdefault("promoted", [])
+        raw["promoted"].extend(copy.deepcopy(q.raw["promoted"]))
+    env_ty = q.raw["locals"][1]["ty"]
+    by_value = not env_ty.startswith("&")
+    env_rv = {"k": "use", "op": {"k": "move", "p": [env_local, []]}} if by_value else {"k": "ref", "mut": env_ty.startswith("&mut"), "p": [env_local, []]}
+    pro = [{"k": "assign", "l": ln, "lhs": [lb + 1, []], "rv": env_rv, "inl": q.id}]
+    for i, a in enumerate(arg_ops):
+        pro.append({"k": "assign", "l": ln, "lhs": [lb + 2 + i, []], "rv": {"k": "use", "op": a}, "inl": q.id})
+    qbase = len(blocks)
+    for d_ in q.raw.get("debug", []):
+        raw["debug"].append({"name": d_["name"], "p": _map_place(d_["p"], lb)})
+    for qb in q.raw["blocks"]:
+        nb = {"cleanup": qb.get("cleanup", False), "inl": q.id, "stmts": [_map_stmt(s_, lb, pb) for s_ in qb["stmts"] if s_["k"] not in ("live", "dead")]}
+        qt = qb["term"]
+        if qt["k"] == "return":
+            nb["term"] = {"k": "goto", "target": ret_target, "l": qt.get("l")}
+        else:
+            nb["term"] = _map_term(qt, lb, qbase, pb)
+        blocks.append(nb)
+    return qbase, lb, pro
+
+
+def desugar_fetch_update(raw, originals, stats=None, owner=None):
+    """`a.fetch_update(set, fetch, |cur| f(cur))` is, by its documentation, `let mut cur = a.load(fetch); loop { match f(cur) {
+    Some(new) => match a.compare_exchange_weak(cur, new, set, fetch) { Ok(p) => break Ok(p), Err(obs) => cur = obs },
+    None => break Err(cur) } }`: present it as that loop, with the closure body spliced in."""
+    changed = False
+    blocks = raw["blocks"]
+    for bi in range(len(blocks)):
+        t = blocks[bi]["term"]
+        if t["k"] != "call" or blocks[bi].get("cleanup") or t.get("target") is None:
+            continue
+        d, _r = _fn_def(t)
+        m = re.match(r"^(std::sync::atomic::Atomic(?:::<\w+>|\w+))::fetch_update$", d)
+        if not m or len(t["args"]) != 4:
+            continue
+        cop = t["args"][3]
+        if cop.get("k") != "move" or cop["p"][1]:
+            continue
+        cst = _single_closure_def(raw, cop["p"][0])
+        if cst is None:
+            continue
+        q = originals.get(cst["rv"]["def"])
+        if q is None or q.kind != "closure" or q.arg_count != 2:
+            continue
+        if len(blocks) + len(q.raw["blocks"]) + 10 > MAX_BLOCKS:
+            continue
+        base = m.group(1)
+        impl_self = ((t.get("func") or {}).get("fn") or {}).get("impl_self")
+        L = raw["locals"]
+        def new_local(ty):
+            L.append({"ty": ty, "mut": True, "user": False, "synthetic": True})
+            return len(L) - 1
+        vty = q.raw["locals"][2]["ty"]
+        aref = new_local("&" + (impl_self or "atomic"))
+        cur = new_local(vty)
+        so, fo = new_local("std::sync::atomic::Ordering"), new_local("std::sync::atomic::Ordering")
+        ropt = new_local("std::option::Option<%s>" % vty)
+        dsc = new_local("isize")
+        newv = new_local(vty)
+        cas = new_local("std::result::Result<%s, %s>" % (vty, vty))
+        dsc2 = new_local("isize")
+        ln = t.get("l")
+        def call(name, args, dest, target):
+            return {"l": ln, "k": "call", "synthetic": True, "func": {"k": "const", "ty": "fn", "val": base + "::" + name, "fn": {"def": base + "::" + name, "gargs": [], "impl_self": impl_self}},
+                    "args": args, "dest": [dest, []], "target": target}
+        mv = lambda l, proj=None: {"k": "move", "p": [l, proj or []]}
+        cp = lambda l, proj=None: {"k": "copy", "p": [l, proj or []]}
+        # block ids
+        LOAD = len(blocks)
+        blocks.append(None)      # LOAD : cur = load(aref, fo) -> HEAD
+        HEAD = len(blocks)
+        blocks.append(None)      # HEAD : env/arg binding, goto closure entry
+        RET = len(blocks)
+        blocks.append(None)      # RET  : ropt = _0' ; switch disc
+        SOME = len(blocks)
+        blocks.append(None)      # SOME : newv = (ropt as Some).0 ; cas = compare_exchange_weak(aref, cur, newv, so, fo) -> CASR
+        NONE = len(blocks)
+        blocks.append(None)      # NONE : dest = Err(cur) ; goto T
+        CASR = len(blocks)
+        blocks.append(None)      # CASR : switch disc(cas)
+        OKB = len(blocks)
+        blocks.append(None)      # OKB  : dest = Ok((cas as Ok).0) ; goto T
+        ERRB = len(blocks)
+        blocks.append(None)      # ERRB : cur = (cas as Err).0 ; goto HEAD
+        UNR = len(blocks)
+        blocks.append({"cleanup": False, "inl": q.id, "stmts": [], "term": {"l": ln, "k": "unreachable"}})
+        entry, lb, pro = splice_closure(raw, q, cop["p"][0], [cp(cur)], RET, ln)
+        blk = lambda stmts, term: {"cleanup": False, "inl": q.id, "stmts": stmts, "term": term}
+        asg = lambda lhs, rv: {"k": "assign", "l": ln, "lhs": lhs, "rv": rv, "inl": q.id}
+        blocks[LOAD] = blk([], call("load", [cp(aref), cp(fo)], cur, HEAD))
+        blocks[HEAD] = blk(pro, {"l": ln, "k": "goto", "target": entry})
+        blocks[RET] = blk([asg([ropt, []], {"k": "use", "op": mv(lb)}),
+                           asg([dsc, []], {"k": "disc", "p": [ropt, []], "ty": "std::option::Option<%s>" % vty, "adt": "std::option::Option", "variants": [["None", "0"], ["Some", "1"]]})],
+                          {"l": ln, "k": "switch", "discr": mv(dsc), "dty": "isize", "targets": [["0", NONE], ["1", SOME]], "otherwise": UNR})
+        blocks[SOME] = blk([asg([newv, []], {"k": "use", "op": cp(ropt, ["d:1:Some", "f:0:0"])})],
+                           call("compare_exchange_weak", [cp(aref), cp(cur), cp(newv), cp(so), cp(fo)], cas, CASR))
+        blocks[NONE] = blk([asg(t["dest"], {"k": "agg", "kind": "adt", "adt": "std::result::Result", "variant": "Err", "vidx": 1, "fields": ["0"], "ops": [cp(cur)]})],
+                           {"l": ln, "k": "goto", "target": t["target"]})
+        blocks[CASR] = blk([asg([dsc2, []], {"k": "disc", "p": [cas, []], "ty": "std::result::Result<%s, %s>" % (vty, vty), "adt": "std::result::Result", "variants": [["Ok", "0"], ["Err", "1"]]})],
+                           {"l": ln, "k": "switch", "discr": mv(dsc2), "dty": "isize", "targets": [["0", OKB], ["1", ERRB]], "otherwise": UNR})
+        blocks[OKB] = blk([asg(t["dest"], {"k": "agg", "kind": "adt", "adt": "std::result::Result", "variant": "Ok", "vidx": 0, "fields": ["0"], "ops": [cp(cas, ["d:0:Ok", "f:0:0"])]})],
+                          {"l": ln, "k": "goto", "target": t["target"]})
+        blocks[ERRB] = blk([asg([cur, []], {"k": "use", "op": cp(cas, ["d:1:Err", "f:0:0"])})], {"l": ln, "k": "goto", "target": HEAD})
+        b = blocks[bi]
+        b["stmts"].append(asg([aref, []], {"k": "use", "op": t["args"][0]}))
+        b["stmts"].append(asg([so, []], {"k": "use", "op": t["args"][1]}))
+        b["stmts"].append(asg([fo, []], {"k": "use", "op": t["args"][2]}))
+        b["term"] = {"k": "goto", "target": LOAD, "l": ln, "inl_call": q.id}
+        changed = True
+        if stats is not None:
+            stats.append((owner or raw.get("id"), q.id))
+    return changed
+
+
+
+OPT, RES = "std::option::Option", "std::result::Result"
+_VIDX = {(OPT, "None"): 0, (OPT, "Some"): 1, (RES, "Ok"): 0, (RES, "Err"): 1}
+# self-consuming combinators that run their closure at most once, in place: variant -> what the result is
+COMBINATORS = {
+    "std::option::Option::<T>::map":            (OPT, {"Some": ("call", 1, True, (OPT, "Some")), "None": ("unit", OPT, "None")}),
+    "std::option::Option::<T>::and_then":       (OPT, {"Some": ("call", 1, True, None), "None": ("unit", OPT, "None")}),
+    "std::option::Option::<T>::is_some_and":    (OPT, {"Some": ("call", 1, True, None), "None": ("const", "false")}),
+    "std::option::Option::<T>::is_none_or":     (OPT, {"Some": ("call", 1, True, None), "None": ("const", "true")}),
+    "std::option::Option::<T>::map_or":         (OPT, {"Some": ("call", 2, True, None), "None": ("arg", 1)}),
+    "std::option::Option::<T>::map_or_else":    (OPT, {"Some": ("call", 2, True, None), "None": ("call", 1, False, None)}),
+    "std::option::Option::<T>::unwrap_or_else": (OPT, {"Some": ("payload", None), "None": ("call", 1, False, None)}),
+    "std::option::Option::<T>::unwrap_or":      (OPT, {"Some": ("payload", None), "None": ("arg", 1)}),
+    "std::option::Option::<T>::ok_or":          (OPT, {"Some": ("payload", (RES, "Ok")), "None": ("argwrap", 1, (RES, "Err"))}),
+    "std::option::Option::<T>::ok_or_else":     (OPT, {"Some": ("payload", (RES, "Ok")), "None": ("call", 1, False, (RES, "Err"))}),
+    "std::result::Result::<T, E>::map":         (RES, {"Ok": ("call", 1, True, (RES, "Ok")), "Err": ("payload", (RES, "Err"))}),
+    "std::result::Result::<T, E>::map_err":     (RES, {"Ok": ("payload", (RES, "Ok")), "Err": ("call", 1, True, (RES, "Err"))}),
+    "std::result::Result::<T, E>::and_then":    (RES, {"Ok": ("call", 1, True, None), "Err": ("payload", (RES, "Err"))}),
+    "std::result::Result::<T, E>::or_else":     (RES, {"Ok": ("payload", (RES, "Ok")), "Err": ("call", 1, True, None)}),
+    "std::result::Result::<T, E>::ok":          (RES, {"Ok": ("payload", (OPT, "Some")), "Err": ("unit", OPT, "None")}),
+    "std::result::Result::<T, E>::err":         (RES, {"Ok": ("unit", OPT, "None"), "Err": ("payload", (OPT, "Some"))}),
+    "std::result::Result::<T, E>::unwrap_or_else": (RES, {"Ok": ("payload", None), "Err": ("call", 1, True, None)}),
+    "std::result::Result::<T, E>::unwrap_or":   (RES, {"Ok": ("payload", None), "Err": ("arg", 1)}),
+    "std::result::Result::<T, E>::is_ok_and":   (RES, {"Ok": ("call", 1, True, None), "Err": ("const", "false")}),
+    "std::result::Result::<T, E>::is_err_and":  (RES, {"Ok": ("const", "false"), "Err": ("call", 1, True, None)}),
+    "core::bool::<impl bool>::then":            ("bool", {"true": ("call", 1, False, (OPT, "Some")), "false": ("unit", OPT, "None")}),
+}
+
+
+def desugar_combinators(raw, originals, stats=None, owner=None):
+    """`opt.map(|x| f(x))` is `match opt { Some(x) => Some(f(x)), None => None }` -- and likewise for the other self-consuming
+    Option / Result / bool combinators that run their closure at most once, in place.  The call becomes that match; a closure
+    written in place is spliced in, a function item is called."""
+    changed = False
+    blocks = raw["blocks"]
+    L = raw["locals"]
+    def new_local(ty):
+        L.append({"ty": ty, "mut": True, "user": False, "synthetic": True})
+        return len(L) - 1
+    for bi in range(len(blocks)):
+        t = blocks[bi]["term"]
+        if t["k"] != "call" or blocks[bi].get("cleanup") or t.get("target") is None:
+            continue
+        d, _r = _fn_def(t)
+        spec = COMBINATORS.get(d)
+        if spec is None:
+            continue
+        adt, arms = spec
+        # every closure operand must be a closure written in place or a function item
+        callees = {}
+        ok = True
+        for arm in arms.values():
+            if arm[0] != "call":
+                continue
+            idx = arm[1]
+            if idx >= len(t["args"]):
+                ok = False
+                break
+            a = t["args"][idx]
+            if a.get("k") == "move" and not a["p"][1]:
+                cst = _single_closure_def(raw, a["p"][0])
+                q = originals.get(cst["rv"]["def"]) if cst is not None else None
+                want = 2 if arm[2] else 1
+                if q is None or q.kind != "closure" or q.arg_count != want:
+                    ok = False
+                    break
+                callees[idx] = ("closure", q, a["p"][0])
+            elif a.get("k") == "const" and a.get("fn"):
+                callees[idx] = ("fn", a)
+            else:
+                ok = False
+                break
+        if not ok:
+            continue
+        if len(blocks) + sum(len(c[1].raw["blocks"]) for c in callees.values() if c[0] == "closure") + 12 > MAX_BLOCKS:
+            continue
+        ln = t.get("l")
+        dest, T = t["dest"], t["target"]
+        sv = new_local("<self of %s>" % d.split("::")[-1])
+        asg = lambda lhs, rv: {"k": "assign", "l": ln, "lhs": lhs, "rv": rv, "desugared": d}
+        blk = lambda stmts, term: {"cleanup": False, "desugared": d, "stmts": stmts, "term": term}
+        mv = lambda l, proj=None: {"k": "move", "p": [l, proj or []]}
+        def wrap_into(lhs, op, wrap):
+            if wrap is None:
+                return asg(lhs, {"k": "use", "op": op})
+            return asg(lhs, {"k": "agg", "kind": "adt", "adt": wrap[0], "variant": wrap[1], "vidx": _VIDX[wrap], "fields": ["0"], "ops": [op]})
+        arm_entry = {}
+        for vname, arm in arms.items():
+            payload = None if adt == "bool" else mv(sv, ["d:%d:%s" % (_VIDX[(adt, vname)], vname), "f:0:0"])
+            kind = arm[0]
+            if kind == "call":
+                idx, with_payload, wrap = arm[1], arm[2], arm[3]
+                tmp = new_local("<result of closure>")
+                RET = len(blocks)
+                blocks.append(blk([wrap_into(dest, mv(tmp), wrap)], {"l": ln, "k": "goto", "target": T}))
+                c = callees[idx]
+                if c[0] == "closure":
+                    RET0 = len(blocks)
+                    blocks.append(None)
+                    entry, lb, pro = splice_closure(raw, c[1], c[2], [payload] if with_payload else [], RET0, ln)
+                    blocks[RET0] = blk([asg([tmp, []], {"k": "use", "op": mv(lb)})], {"l": ln, "k": "goto", "target": RET})
+                    A = len(blocks)
+                    blocks.append(blk(pro, {"l": ln, "k": "goto", "target": entry}))
+                    if stats is not None:
+                        stats.append((owner or raw.get("id"), c[1].id))
+                else:
+                    A = len(blocks)
+                    blocks.append(blk([], {"l": ln, "k": "call", "synthetic": True, "func": c[1], "args": [payload] if with_payload else [], "dest": [tmp, []], "target": RET}))
+                arm_entry[vname] = A
+            elif kind == "payload":
+                arm_entry[vname] = len(blocks)
+                blocks.append(blk([wrap_into(dest, payload, arm[1])], {"l": ln, "k": "goto", "target": T}))
+            elif kind == "unit":
+                arm_entry[vname] = len(blocks)
+                blocks.append(blk([asg(dest, {"k": "agg", "kind": "adt", "adt": arm[1], "variant": arm[2], "vidx": _VIDX[(arm[1], arm[2])], "fields": [], "ops": []})], {"l": ln, "k": "goto", "target": T}))
+            elif kind == "arg":
+                arm_entry[vname] = len(blocks)
+                blocks.append(blk([asg(dest, {"k": "use", "op": t["args"][arm[1]]})], {"l": ln, "k": "goto", "target": T}))
+            elif kind == "argwrap":
+                arm_entry[vname] = len(blocks)
+                blocks.append(blk([wrap_into(dest, t["args"][arm[1]], arm[2])], {"l": ln, "k": "goto", "target": T}))
+            elif kind == "const":
+                arm_entry[vname] = len(blocks)
+                blocks.append(blk([asg(dest, {"k": "use", "op": {"k": "const", "ty": "bool", "val": arm[1], "int": "1" if arm[1] == "true" else "0"}})], {"l": ln, "k": "goto", "target": T}))
+        b = blocks[bi]
+        b["stmts"].append(asg([sv, []], {"k": "use", "op": t["args"][0]}))
+        if adt == "bool":
+            b["term"] = {"l": ln, "k": "switch", "discr": {"k": "copy", "p": [sv, []]}, "dty": "bool", "targets": [["0", arm_entry["false"]]], "otherwise": arm_entry["true"], "desugared": d}
+        else:
+            dsc = new_local("isize")
+            U = len(blocks)
+            blocks.append(blk([], {"l": ln, "k": "unreachable"}))
+            names = list(arms.keys())
+            b["stmts"].append(asg([dsc, []], {"k": "disc", "p": [sv, []], "ty": adt, "adt": adt, "variants": [[n, str(_VIDX[(adt, n)])] for n in sorted(names, key=lambda n: _VIDX[(adt, n)])]}))
+            b["term"] = {"l": ln, "k": "switch", "discr": {"k": "move", "p": [dsc, []]}, "dty": "isize", "targets": [[str(_VIDX[(adt, n)]), arm_entry[n]] for n in sorted(names, key=lambda n: _VIDX[(adt, n)])], "otherwise": U, "desugared": d}
+        changed = True
+    return changed
+
+
 def inline_body(db, f, originals, stats=None, mode="cons"):
     """returns a new raw dict for f with inlinable local calls spliced in, or None if nothing was inlined"""
     raw = None
     changed = False
+    comb = mode.endswith("+c")
+    if comb:
+        mode = mode[:-2]
     for depth in range(MAX_DEPTH):
+        if comb:
+            src0 = raw if raw is not None else f.raw
+            if any(b["term"]["k"] == "call" and _fn_def(b["term"])[0] in COMBINATORS for b in src0["blocks"]):
+                if raw is None:
+                    raw = copy.deepcopy(f.raw)
+                if desugar_combinators(raw, originals, stats, f.id):
+                    changed = True
         if not os.environ.get("VERIF_NO_FOREACH"):
             has = any(b["term"]["k"] == "call" and _fn_def(b["term"])[0] == "std::iter::Iterator::for_each" for b in (raw if raw is not None else f.raw)["blocks"])
             if has:
                 if raw is None:
                     raw = copy.deepcopy(f.raw)
                 if desugar_for_each(raw, originals, stats, f.id):
+                    changed = True
+        if mode != "cons-broad" and not os.environ.get("VERIF_NO_FETCH_UPDATE"):
+            # (one view keeps fetch_update as written: rules that know the closure form of a status-word update see it there)
+            has = any(b["term"]["k"] == "call" and _fn_def(b["term"])[0].endswith("::fetch_update") for b in (raw if raw is not None else f.raw)["blocks"])
+            if has:
+                if raw is None:
+                    raw = copy.deepcopy(f.raw)
+                if desugar_fetch_update(raw, originals, stats, f.id):
                     changed = True
         src = raw if raw is not None else f.raw
         blocks = src["blocks"]
